@@ -24,6 +24,15 @@
 (*                             are swallowed by its length on the NEXT load.                                 *)
 (*   Dev_TruncLogBeforeRename  a design mutation used as self-test: compaction resets the log before the    *)
 (*                             snapshot rename.                                                              *)
+(*   Dev_SnapshotExpiryCheckedEarly  (seeded-change class; F-12b was its general form) load() inserts a     *)
+(*                             snapshot entry that carries an expiry only if that expiry is later than the   *)
+(*                             clock at load time, while log records are replayed first and judged after:   *)
+(*                             a key set with a TTL, compacted into the snapshot and then made permanent     *)
+(*                             (persist) or extended (expireAt) by an 'X' record - which carries no value    *)
+(*                             and is an orphan once the entry was skipped - is lost by a reopen after the   *)
+(*                             ORIGINAL deadline although the acknowledged state is permanent / later.       *)
+(* Clock: now = 0, or Late after TimePasses (once; also while the store is down).  Expiries are absolute    *)
+(* (KvOps); load() replays everything and drops the keys whose FINAL expiry has passed (Norm).               *)
 (* Generator mode (Emit = TRUE, MaxCrash = 0): every maximal history is printed as a driver case line; the   *)
 (* driver then crashes the REAL store at every file operation / byte cut of that history.                    *)
 EXTENDS KvOps, TLC
@@ -31,7 +40,7 @@ EXTENDS KvOps, TLC
 CONSTANTS NK, NV, NE,                \* keys 1..NK, values 1..NV, expiry ids 1..NE
           MaxOps, MaxCrash,
           OpKinds,                   \* the operation kinds enabled in this configuration
-          Dev_TornTailNotTruncated, Dev_TruncLogBeforeRename,
+          Dev_TornTailNotTruncated, Dev_TruncLogBeforeRename, Dev_SnapshotExpiryCheckedEarly,
           Emit
 
 Keys == 1..NK
@@ -43,12 +52,13 @@ PrefixKeys == IF NK >= 2 THEN <<1, 2>> ELSE <<1>>      \* keys 1 and 2 share the
 
 VARIABLES snap, log, tmp, logOpen,   \* the files (+ whether the append stream is open)
           mem,                       \* in-memory map of the running process (_kv/_expiry)
-          cur, pc,                   \* API call in flight and its remaining file operations
+          cur, pc, cnow,             \* API call in flight, its remaining file operations, the clock when it was called
+          now,                       \* wall clock: 0 or Late
           up,                        \* process alive?
           base,                      \* ghost: map after the last completed operation (Abs baseline)
           nops, ncrash, ok,
           hist, fhist                \* generator mode only: API history and the file operations it issued
-vars == <<snap, log, tmp, logOpen, mem, cur, pc, up, base, nops, ncrash, ok, hist, fhist>>
+vars == <<snap, log, tmp, logOpen, mem, cur, pc, cnow, now, up, base, nops, ncrash, ok, hist, fhist>>
 
 NoRec == [op |-> "-", k |-> 0, v |-> 0, e |-> 0, torn |-> "ok"]
 Rec(o, k, v, e) == [op |-> o, k |-> k, v |-> v, e |-> e, torn |-> "ok"]
@@ -86,18 +96,18 @@ Ops == {o \in AllOps : o.op \in OpKinds}
 Orders == {s \in [1..NK -> Keys] : \A i, j \in 1..NK : i # j => s[i] # s[j]}   \* unordered_map iteration orders
 
 (* file operations the code issues for operation o when the in-memory map is m (BEFORE the call) *)
-FileOps(o, m, ord) ==
+FileOps(o, m, ord, t) ==
     CASE o.op = "set"   -> <<FOp("Append", Rec("S", o.k, o.v, 0))>>
-      [] o.op = "setx"  -> <<FOp("Append", Rec("E", o.k, o.v, o.e))>>
+      [] o.op = "setx"  -> <<FOp("Append", Rec("E", o.k, o.v, Rel2(o.e, t)))>>
       [] o.op = "rm"    -> IF Present(m, o.k) THEN <<FOp("Append", Rec("D", o.k, 0, 0))>> ELSE <<>>
-      [] o.op = "exp"   -> IF Present(m, o.k) THEN <<FOp("Append", Rec("X", o.k, 0, o.e))>> ELSE <<>>
-      [] o.op = "per"   -> IF Present(m, o.k) /\ m[o.k].exp # 0 THEN <<FOp("Append", Rec("X", o.k, 0, 0))>> ELSE <<>>
+      [] o.op = "exp"   -> IF LiveK(m, o.k, t) THEN <<FOp("Append", Rec("X", o.k, 0, Abs2(o.e)))>> ELSE <<>>
+      [] o.op = "per"   -> IF LiveK(m, o.k, t) /\ m[o.k].exp # 0 THEN <<FOp("Append", Rec("X", o.k, 0, 0))>> ELSE <<>>
       [] o.op = "batch" -> LET sel == SelectSeq(ord, LAMBDA k : k \in SeqRange(o.ks)) IN
                            [i \in 1..Len(sel) |->
-                               FOp("Append", Rec(IF o.e = 0 THEN "S" ELSE "E", sel[i], o.vs[IdxOf(o.ks, sel[i])], o.e))]
+                               FOp("Append", Rec(IF o.e = 0 THEN "S" ELSE "E", sel[i], o.vs[IdxOf(o.ks, sel[i])], Rel2(o.e, t)))]
       [] o.op = "clear" -> LET sel == SelectSeq(ord, LAMBDA k : Present(m, k)) IN
                            [i \in 1..Len(sel) |-> FOp("Append", Rec("D", sel[i], 0, 0))]
-      [] o.op = "rmp"   -> LET sel == SelectSeq(ord, LAMBDA k : k \in SeqRange(o.ks) /\ Present(m, k)) IN
+      [] o.op = "rmp"   -> LET sel == SelectSeq(ord, LAMBDA k : k \in SeqRange(o.ks) /\ LiveK(m, k, t)) IN
                            [i \in 1..Len(sel) |-> FOp("Append", Rec("D", sel[i], 0, 0))]
       [] o.op = "compact" ->
             IF Dev_TruncLogBeforeRename
@@ -108,30 +118,31 @@ FileOps(o, m, ord) ==
       [] OTHER -> <<>>
 
 Init == /\ snap = [present |-> FALSE, m |-> EmptyMap] /\ log = <<>> /\ tmp = NoTmp /\ logOpen = TRUE
-        /\ mem = EmptyMap /\ cur = Nop /\ pc = <<>> /\ up = TRUE /\ base = EmptyMap
+        /\ mem = EmptyMap /\ cur = Nop /\ pc = <<>> /\ cnow = 0 /\ now = 0 /\ up = TRUE /\ base = EmptyMap
         /\ nops = 0 /\ ncrash = 0 /\ ok = TRUE /\ hist = <<>> /\ fhist = <<>>
 
 (* ------------------------------------------------------------------ API call / return *)
 Call(o, ord) ==
     /\ up /\ cur = Nop /\ pc = <<>> /\ nops < MaxOps
-    /\ cur' = o
-    /\ mem' = Eff(o, mem)                  \* the code updates memory first, then writes the log
-    /\ pc' = FileOps(o, mem, ord)
-    /\ UNCHANGED <<snap, log, tmp, logOpen, up, base, nops, ncrash, ok, hist, fhist>>
+    /\ cur' = o /\ cnow' = now
+    /\ mem' = EffT(o, mem, now)            \* the code updates memory first, then writes the log
+    /\ pc' = FileOps(o, mem, ord, now)
+    /\ UNCHANGED <<snap, log, tmp, logOpen, now, up, base, nops, ncrash, ok, hist, fhist>>
 
 Ret == /\ up /\ cur # Nop /\ pc = <<>>
-       /\ base' = Eff(cur, base)
+       /\ base' = EffT(cur, base, cnow)
        /\ cur' = Nop /\ nops' = nops + 1
        /\ hist' = (IF Emit THEN Append(hist, cur) ELSE hist)
-       /\ UNCHANGED <<snap, log, tmp, logOpen, mem, pc, up, ncrash, ok, fhist>>
+       /\ UNCHANGED <<snap, log, tmp, logOpen, mem, pc, cnow, now, up, ncrash, ok, fhist>>
 
 (* ------------------------------------------------------------------ file operations, one action each *)
 Stepping(t) == /\ up /\ pc # <<>> /\ Head(pc).t = t /\ pc' = Tail(pc)
                /\ fhist' = (IF Emit THEN Append(fhist, t) ELSE fhist)
-               /\ UNCHANGED <<mem, cur, up, base, nops, ncrash, ok, hist>>
+               /\ UNCHANGED <<mem, cur, cnow, now, up, base, nops, ncrash, ok, hist>>
 
 StepAppend     == Stepping("Append") /\ logOpen /\ log' = Append(log, Head(pc).r) /\ UNCHANGED <<snap, tmp, logOpen>>
-StepWriteTmp   == Stepping("WriteTmp") /\ tmp' = [st |-> "full", m |-> mem] /\ UNCHANGED <<snap, log, logOpen>>
+StepWriteTmp   == Stepping("WriteTmp") /\ tmp' = [st |-> "full", m |-> [k \in Keys |-> Norm(mem[k], now)]]   \* survivors only
+                  /\ UNCHANGED <<snap, log, logOpen>>
 StepRename     == Stepping("Rename") /\ tmp.st = "full"
                   /\ snap' = [present |-> TRUE, m |-> tmp.m] /\ tmp' = NoTmp /\ UNCHANGED <<log, logOpen>>
 StepCloseLog   == Stepping("CloseLog") /\ logOpen' = FALSE /\ UNCHANGED <<snap, log, tmp>>
@@ -140,7 +151,7 @@ StepOpenAppend == Stepping("OpenAppend") /\ logOpen' = TRUE /\ UNCHANGED <<snap,
 
 (* ------------------------------------------------------------------ crashes and clean close *)
 Die == /\ up' = FALSE /\ pc' = <<>> /\ mem' = EmptyMap /\ logOpen' = FALSE
-       /\ UNCHANGED <<cur, base, nops, ok, hist, fhist>>
+       /\ UNCHANGED <<cur, cnow, now, base, nops, ok, hist, fhist>>
 
 CrashBetween == /\ up /\ ncrash < MaxCrash /\ ncrash' = ncrash + 1 /\ Die
                 /\ UNCHANGED <<snap, log, tmp>>
@@ -159,23 +170,32 @@ CleanClose == /\ up /\ cur = Nop /\ pc = <<>> /\ nops < MaxOps /\ "reopen" \in O
               /\ up' = FALSE /\ logOpen' = FALSE /\ mem' = EmptyMap
               /\ nops' = nops + 1
               /\ hist' = (IF Emit THEN Append(hist, Op("reopen", 0, 0, 0)) ELSE hist)
-              /\ UNCHANGED <<snap, log, tmp, cur, pc, base, ncrash, ok, fhist>>
+              /\ UNCHANGED <<snap, log, tmp, cur, pc, cnow, now, base, ncrash, ok, fhist>>
 
 (* ------------------------------------------------------------------ reopen = load + truncate + open append *)
 Reopen ==
     /\ ~up
     /\ LET g   == GoodLen(log)
-           m0  == IF snap.present THEN snap.m ELSE EmptyMap
-           rec == Replay(m0, SubSeq(log, 1, g)) IN
+           m0  == IF ~snap.present THEN EmptyMap
+                  ELSE IF Dev_SnapshotExpiryCheckedEarly THEN [k \in Keys |-> Norm(snap.m[k], now)] ELSE snap.m
+           rec == [k \in Keys |-> Norm(Replay(m0, SubSeq(log, 1, g))[k], now)] IN   \* expired keys dropped AFTER replay
        /\ mem' = rec
        /\ log' = IF Dev_TornTailNotTruncated THEN log ELSE SubSeq(log, 1, g)
-       /\ ok' = (ok /\ \A k \in Keys : rec[k] \in Admissible(base, cur, k))
+       /\ ok' = (ok /\ \A k \in Keys : rec[k] \in AdmissibleT(base, cur, k, cnow, now))
        /\ base' = rec
     /\ nops' = IF cur # Nop THEN nops + 1 ELSE nops
     /\ cur' = Nop /\ up' = TRUE /\ logOpen' = TRUE
-    /\ UNCHANGED <<snap, tmp, pc, ncrash, hist, fhist>>
+    /\ UNCHANGED <<snap, tmp, pc, cnow, now, ncrash, hist, fhist>>
+
+(* the clock jumps past the first deadline: as a step of the history while the store is idle, or unseen while it is down *)
+TimePasses == /\ now = 0 /\ "tick" \in OpKinds /\ now' = Late
+              /\ \/ up /\ cur = Nop /\ pc = <<>> /\ nops < MaxOps /\ nops' = nops + 1
+                    /\ hist' = (IF Emit THEN Append(hist, Op("tick", 0, 0, 0)) ELSE hist)
+                 \/ ~up /\ ~Emit /\ UNCHANGED <<nops, hist>>
+              /\ UNCHANGED <<snap, log, tmp, logOpen, mem, cur, pc, cnow, up, base, ncrash, ok, fhist>>
 
 Next == \/ \E o \in Ops, ord \in Orders : Call(o, ord)
+        \/ TimePasses
         \/ Ret
         \/ StepAppend \/ StepWriteTmp \/ StepRename \/ StepCloseLog \/ StepTruncLog \/ StepOpenAppend
         \/ CrashBetween \/ CrashInWriteTmp \/ \E kd \in TornKinds : CrashInAppend(kd)
@@ -184,7 +204,7 @@ Spec == Init /\ [][Next]_vars
 
 (* ------------------------------------------------------------------ properties *)
 Inv_Recovered == ok
-Inv_MemIsBase == (up /\ cur = Nop) => mem = base            \* the running process agrees with the baseline
+Inv_MemIsBase == (up /\ cur = Nop) => \A k \in Keys : Norm(mem[k], now) = Norm(base[k], now)   \* the running process agrees with the baseline
 Inv_Files == \A i \in 1..Len(log) : log[i].torn # "ok" =>
                  (Dev_TornTailNotTruncated \/ (i = Len(log) /\ ~up))        \* a torn record is only ever the tail of a dead store
 
@@ -200,7 +220,7 @@ OpStr(o) ==
       [] o.op = "per"   -> "per " \o ToString(o.k)
       [] o.op = "batch" -> "batch " \o ToString(o.e) \o " " \o JoinKV(o.ks, o.vs, 1)
       [] o.op = "rmp"   -> "rmp 1"
-      [] OTHER          -> o.op             \* clear, compact, reopen
+      [] OTHER          -> o.op             \* clear, compact, reopen, tick
 RECURSIVE JoinOps(_)
 JoinOps(s) == IF s = <<>> THEN "" ELSE OpStr(Head(s)) \o (IF Len(s) > 1 THEN ";" ELSE "") \o JoinOps(Tail(s))
 RECURSIVE JoinS(_)
